@@ -237,3 +237,19 @@ func VerifC44DecryptTicket(cfg *Config, ticket []byte) (*VerifC44State, bool) {
 	}
 	return verifC44FromState(s), true
 }
+
+// VerifC44ParseHello parses a ClientHello handshake message (type, 3-byte length, body) captured from the wire with
+// bfe's own clientHelloMsg.unmarshal.
+func VerifC44ParseHello(msg []byte) (*VerifC44Hello, bool) {
+	m := new(clientHelloMsg)
+	if len(msg) < 4 || msg[0] != typeClientHello || !m.unmarshal(append([]byte(nil), msg...)) {
+		return nil, false
+	}
+	h := &VerifC44Hello{Vers: m.vers, Suites: m.cipherSuites, Compression: m.compressionMethods, Points: m.supportedPoints,
+		ALPN: m.alpnProtocols, NPN: m.nextProtoNeg, TicketSupported: m.ticketSupported, SessionTicket: m.sessionTicket,
+		SessionId: m.sessionId, ServerName: m.serverName}
+	for _, c := range m.supportedCurves {
+		h.Curves = append(h.Curves, uint16(c))
+	}
+	return h, true
+}
